@@ -192,6 +192,33 @@ Example tls_three_records :
   In (K_RET, [23; 1; 40000]) tr /\ In (K_ENG, [2; 7232; 7232; 0; 1]) tr.
 Proof. vm_compute. split; tauto. Qed.
 
+(* Finding F13 (known, not repaired): the retry loops assert that ten rounds always suffice. In driver mode (and for calls with
+   a zero time-out) input that trickles in — ten times in a row the zero-time-out look of BioRead finds nothing and the
+   zero-time-out wait of HandleError right after it finds the socket ready — exhausts them: the faithful model reaches
+   assert(i < handshakeStepsMax) of Read() (Stuck 41) under legal use. Witness found by the C18 check (an asynchronous server,
+   ClientHello arriving one byte at a time), replayed on the implementation: abort. *)
+Definition f13_ops : list raw :=
+  [(81, [9]); (27, [9; -1; 1]); (1, [1]); (2, []); (1, [2]); (2, []); (40, []); (10, [8; 0; 0]); (30, [1; 2; 64]);
+  (60, [1; 1; 2]); (1041, [-1])].
+Definition f13_script : list raw :=
+  [(2, [1; 0; 0; 1]); (7, [0; 5]); (2, [1; 0; 2000000; 0; 1]);
+  (8, [1; 5; 1; 120; 2; 900; 1; 60; 2; 260; 1; 5; -1; 2; 1]); (4, [1; 0]); (2, [0; 0; 0; 0]); (2, [1; 0; 0; 1]);
+  (8, [1; 5; 1; 119; 2; 900; 1; 60; 2; 260; 1; 5; -1; 2; 1]); (2, [1; 0; 0; 1]); (4, [1; 0]); (2, [0; 0; 0; 0]);
+  (2, [1; 0; 0; 1]); (8, [1; 5; 1; 118; 2; 900; 1; 60; 2; 260; 1; 5; -1; 2; 1]); (2, [1; 0; 0; 1]); (4, [1; 0]);
+  (2, [0; 0; 0; 0]); (2, [1; 0; 0; 1]); (8, [1; 5; 1; 117; 2; 900; 1; 60; 2; 260; 1; 5; -1; 2; 1]); (2, [1; 0; 0; 1]);
+  (4, [1; 0]); (2, [1; 0; 0; 1]); (4, [1; 0]); (2, [1; 0; 0; 1]); (4, [1; 0]); (2, [0; 0; 0; 0]); (2, [1; 0; 0; 1]);
+  (8, [1; 5; 1; 114; 2; 900; 1; 60; 2; 260; 1; 5; -1; 2; 1]); (2, [1; 0; 0; 1]); (4, [1; 0]); (2, [1; 0; 0; 1]);
+  (4, [1; 0]); (2, [0; 0; 0; 0]); (2, [1; 0; 0; 1]); (8, [1; 5; 1; 112; 2; 900; 1; 60; 2; 260; 1; 5; -1; 2; 1]);
+  (2, [1; 0; 0; 1]); (4, [1; 0]); (2, [0; 0; 0; 0]); (2, [1; 0; 0; 1]);
+  (8, [1; 5; 1; 111; 2; 900; 1; 60; 2; 260; 1; 5; -1; 2; 1]); (2, [1; 0; 0; 1]); (4, [1; 0]); (2, [0; 0; 0; 0]);
+  (2, [1; 0; 0; 1]); (8, [1; 5; 1; 110; 2; 900; 1; 60; 2; 260; 1; 5; -1; 2; 1]); (2, [1; 0; 0; 1]); (4, [1; 0]);
+  (2, [0; 0; 0; 0]); (2, [1; 0; 0; 1]); (8, [1; 5; 1; 109; 2; 900; 1; 60; 2; 260; 1; 5; -1; 2; 1]); (2, [1; 0; 0; 1]);
+  (4, [1; 0]); (2, [1; 0; 0; 1]); (4, [1; 0]); (2, [0; 0; 0; 0]); (2, [1; 0; 0; 1]);
+  (8, [1; 5; 1; 107; 2; 900; 1; 60; 2; 260; 1; 5; -1; 2; 1]); (2, [1; 0; 0; 1]); (4, [1; 0]); (2, [0; 0; 0; 0]);
+  (2, [1; 0; 0; 1])].
+Theorem read_steps_suffice_refuted : In (K_END, [2; 41; 0]) (run_case f13_ops f13_script []).
+Proof. vm_compute. tauto. Qed.
+
 (* non-vacuity: a client that sends 5 bytes with unlimited time-out: handshake flights, then the record *)
 Example tls_client_send :
   let tr := run_case [(80, [1]); (23, [1; 5; -1])]
@@ -220,3 +247,4 @@ Print Assumptions send_some_keeps_the_interest.
 Print Assumptions pending_keeps_the_interest.
 Print Assumptions known_interest_is_polled.
 Print Assumptions tls_send_complete.
+Print Assumptions read_steps_suffice_refuted.
